@@ -185,6 +185,8 @@ def compare_tree(case, rend, root, mod, lc, mode, out, hazard_free_lines=False):
     live = {}
     for key, cpath, pyname, kind, gpath in wanted(case):
         r, m = ref[key], impl[key]
+        if mode == "visit" and r["k"] == "alias" and case["items"][r["it"] - 1]["f"] == "star":
+            continue            # wildcard imports are expanded by the loader only
         try:
             obj = _nav(mod, gpath)
         except KeyError:
@@ -358,7 +360,7 @@ def check_inspect(case, rend, root, out):
         extra = pl[r["hi"] : hi] if hi and hi >= r["hi"] else None
         end_ok = extra is not None and all(x.strip() == "" or x.strip().startswith("#") for x in extra) and (not extra or extra[-1].strip() != "")
         if lo != r["lo"] or not end_ok:
-            cause = "decorator-expression-line" if it["dc"] == "dp" and lo != r["lo"] and end_ok else "none"
+            cause = "decorator-expression-line" if it["dc"] == "dp" and lo != r["lo"] else "none"
             out.v(r, "span", "inspect", cause, f"{name}: inspected lines {lo}-{hi}, its definition spans {r['lo']}-{r['hi']}")
             continue
         if _rel(obj.filepath, root) != "pk/m.py":
